@@ -77,8 +77,10 @@ def run_case(case, ctx):
     exp = O.mixed_opt(n, min(s, n - 1)) if n > 1 else 1
     for st in ("RAM", "DISK"):
         cfg = {"cls": "Mixed", "n": n, "s": s, "storage": st}
-        res = S.run_stream_case({"cfg": cfg, "passes": 1, "observe": None},
-                                record=True)
+        sub = S.decorate({"cfg": cfg, "passes": 1, "observe": None,
+                          "rseed": n + s}, n * 3 + s + (st == "RAM"), 0,
+                         frac=3)
+        res = S.run_stream_case(sub, record=True)
         if res.ex is not None and res.completed:
             res.ex.ck("C06", "forward_total_is_mixed_optimum",
                       res.ex.fwd_steps == exp,
